@@ -178,7 +178,7 @@ CHECKS["C20"] = dict(
           "the row mask is set iff column i is true, so the label names exactly the true columns (for any number of columns); pretty_cut: with sorted edges "
           "searchsorted puts x into (edge[i-1], edge[i]]. Correspondence: nanops.* vs NumPy / exact rational oracles and the Lean reduce_1d model over "
           "exhaustive null placements x threads 1..8, 2-D axes, nb_dot over ndarray/pandas/polars, all small boolean frames, edge grids incl. values on edges."),
-    note="PARTIAL: the chunk theorems are stated over the lists of non-null integers; the executable Val-level model reduce1d is tied to them by the driver's model=spec echo on every case rather than by a Lean theorem; an EMPTY chunk (n_threads > len) makes the source read arr[0] of an empty array (undefined in the model) - exercised, no wrong result observed; mean/var/std are exact only in rational arithmetic (float results compared to 1e-9).",
+    note="The executable model reduce1d itself is proved end to end for the additive reductions (reduce1d_sum_threads, reduce1d_count_threads: any thread count, float view, = NumPy nansum / count of non-null); for min / max the chunk theorems are stated over the lists of non-null integers and reduce1d is tied to them by the driver's model=spec echo on every case; an EMPTY chunk (n_threads > len) makes the source read arr[0] of an empty array (undefined in the model) - exercised, no wrong result observed; mean/var/std are exact only in rational arithmetic (float results compared to 1e-9).",
     technique="Lean 4 proof (fold/chunk homomorphism, testBit induction, sorted-search lemma) + reducer translation + differential correspondence against NumPy",
     design="§7 C20",
 )
